@@ -23,7 +23,7 @@ from . import C01 as P1
 PID = "C02"
 COQ_HEADER = ("From Coq Require Import List NArith ZArith.\nFrom SK Require Import lib.Tok lib.LGraph model.C01_Model model.C02_Model.\n"
               "Import ListNotations.\nOpen Scope Z_scope.\n")
-SHARD = 400
+SHARD = 430
 IMPL_TIMEOUT = 1500
 COQ_TIMEOUT = 900
 RULE = ("ITS graphs (synthetic, ITSGraph of synthetic pairs with and without ignore_aromaticity/balance_its, rsmi_to_its of corpus reactions and "
@@ -70,13 +70,14 @@ ASSUMPTIONS = [
 TESTED_NOT_PROVED = [
     "isomorphic centres under atom-map renumbering of a reaction STRING (through rsmi_to_its; multi-digit maps, %1d ring closures): oracle on every "
     "renumbered corpus case; the graph-level statement is theorem C02_rc_equivariant",
-    "idempotence and equivariance of get_rc under non-default options (the centre of the centre is compared with the model on every option case)",
+    "idempotence of get_rc under options when element_key drops element or typesGH (proved only when both are kept: C02_rcx_idem; a witness shows it "
+    "fails without element; the centre of the centre is compared with the model on every option case)",
     "longest_radius_extension: no theorem about the path itself (model with fuel compared on every 'lre' case; oracle: simple path of unchanged bonds "
     "from a centre atom, at least as long as the longest such path from the first centre atom); C02_extract_k_minus1 relates the context to its length",
     "get_rc / the RadiusExpand helpers do not mutate their input; context_extraction copies the dict (oracle on every option / helper / list case)",
     "isinstance(order, tuple) in find_unequal_order_edges: ITS graphs whose order is a list are outside the model (the library never builds them)",
 ]
-LEVEL_TEXT = ("Machine-checked proof (Coq, 24 theorems, all closed under the global context) over an executable model of get_rc and RadiusExpand: on every "
+LEVEL_TEXT = ("Machine-checked proof (Coq, 28 theorems, all closed under the global context) over an executable model of get_rc and RadiusExpand: on every "
               "well-formed ITS graph whose standard_order is the order difference the centre contains a bond iff its two orders differ or both atoms "
               "are hydrogens (for ignore_aromaticity ITS graphs: iff the orders differ by at least 1, with a witness that 'differs' alone fails), "
               "contains exactly the endpoints of these bonds with the ITS labels (element, charge, typesGH, atom_map), get_rc is idempotent and "
@@ -84,7 +85,8 @@ LEVEL_TEXT = ("Machine-checked proof (Coq, 24 theorems, all closed under the glo
               "distance <= k from the centre, and centre within context(1) within context(2) ... within ITS.  Options: exact characterisation of the "
               "bonds and of the atoms with their labels for every element_key / disconnected / keep_mtg (keep_mtg adds exactly the flagged bonds; "
               "disconnected adds exactly the charge-changing atoms and makes the centre the induced subgraph; the default centre is a subgraph of "
-              "every variant; with default options the general function is get_rc).  Helpers: find_unequal_order_edges is a subset of the centre "
+              "every variant; with default options the general function is get_rc; every variant is well-formed, commutes with injective renumberings and is "
+              "idempotent when element_key keeps element and typesGH).  Helpers: find_unequal_order_edges is a subset of the centre "
               "atoms, equal without unchanged H-H bonds, strict in general; remove_normal_edges keeps exactly the standard_order != 0 bonds; "
               "extract_k option handling incl. n_knn=-1; list extraction is element-wise.  The model is compared with the Python code on every run "
               "(exhaustive <= 3-node scopes for the default and for the options, random/inconsistent/ignore_aromaticity ITS graphs, corpus "
